@@ -99,4 +99,39 @@ theorem result_passes_filter (env : Env) (ps : List Producer) (f : Option Filter
 -- UTC is a regular zone for every wall clock time (spot check of the hypothesis on 400 dates)
 #guard (List.range 400).all fun d => candsOf {} { tod := 5 } d == [(d : Int) * NS_PER_DAY + 5]
 
+
+/-! ### the regularity hypothesis is satisfiable: zones without clock changes -/
+
+/-- in a zone with a fixed UTC offset (UTC itself, Asia/Kolkata, ...) every time of day is regular -/
+theorem timeRegular_fixed_offset (o : Int) (r : TimeRep) (h0 : 0 ≤ r.tod) (h1 : r.tod < NS_PER_DAY) :
+    TimeRegular { init := o, trans := [] } r := by
+  have hc : ∀ d, candsOf { init := o, trans := [] } r d = [d * NS_PER_DAY + r.tod - o] := by
+    intro d
+    simp [candsOf, TimeRep.replace, Zone.resolve, sols, GeLo]
+  refine ⟨?_, ?_, ?_⟩
+  · intro d d' c c' hd hcm hcm'
+    rw [hc] at hcm hcm'
+    simp at hcm hcm'
+    subst hcm hcm'
+    have : d * NS_PER_DAY < d' * NS_PER_DAY := by
+      apply Int.mul_lt_mul_of_pos_right hd
+      decide
+    omega
+  · intro d; rw [hc]; simp
+  · intro d c u hcm hu
+    rw [hc] at hcm
+    simp at hcm
+    subst hcm
+    have hu' : d + 2 ≤ (u + o) / NS_PER_DAY := by
+      simpa [Zone.localDay, Zone.toLocal, Zone.offsetAt, offAt, dayOf] using hu
+    simp only [NS_PER_DAY] at *
+    omega
+
+/-- hence, with a fixed UTC offset, the earliest-admissible-occurrence theorem holds for every time-of-day trigger
+without any hypothesis about the zone -/
+theorem time_least_fixed_offset (env : Env) (o : Int) (hz : env.zone = { init := o, trans := [] }) (r : TimeRep)
+    (f : Option Filter) (h0 : 0 ≤ r.tod) (h1 : r.tod < NS_PER_DAY) (dt x : Int)
+    (h : getNext env (.time r f) dt = .ok x) : LeastAfter (Adm env (.time r f)) dt x :=
+  getNext_least env (.time r f) (by simp only [InFragment]; rw [hz]; exact timeRegular_fixed_offset o r h0 h1) dt x h
+
 end Ea.C05
